@@ -68,6 +68,19 @@ func c14MsgEq(a, b *Message) bool {
 		return false
 	}
 	if a.ResponseMeta != nil {
+		if (a.ResponseMeta.LogProbs == nil) != (b.ResponseMeta.LogProbs == nil) {
+			return false
+		}
+		if a.ResponseMeta.LogProbs != nil {
+			if len(a.ResponseMeta.LogProbs.Content) != len(b.ResponseMeta.LogProbs.Content) {
+				return false
+			}
+			for i := range a.ResponseMeta.LogProbs.Content {
+				if a.ResponseMeta.LogProbs.Content[i].Token != b.ResponseMeta.LogProbs.Content[i].Token {
+					return false
+				}
+			}
+		}
 		if a.ResponseMeta.FinishReason != b.ResponseMeta.FinishReason {
 			return false
 		}
@@ -211,6 +224,41 @@ func VerifC14Meta() {
 	c14Rechunk(msgs, "response meta")
 }
 
+// H3b: log probabilities are appended in order; concatenation never modifies its input chunks
+func VerifC14LogProbs() {
+	var msgs []*Message
+	var lens []int
+	total := 0
+	for i := 0; i < 3; i++ {
+		m := &Message{Role: Assistant}
+		switch vrange("lp", 0, 2) {
+		case 1:
+			m.ResponseMeta = &ResponseMeta{LogProbs: &LogProbs{Content: []LogProb{{Token: []string{"t0", "t1", "t2"}[i]}}}}
+		case 2:
+			m.ResponseMeta = &ResponseMeta{LogProbs: &LogProbs{Content: []LogProb{{Token: []string{"u0", "u1", "u2"}[i]}, {Token: "v"}}}}
+		}
+		n := 0
+		if m.ResponseMeta != nil {
+			n = len(m.ResponseMeta.LogProbs.Content)
+		}
+		lens = append(lens, n)
+		total += n
+		msgs = append(msgs, m)
+	}
+	all := c14Rechunk(msgs, "log probs")
+	vassert(all != nil, "log-prob chunks concatenate")
+	if total > 0 {
+		vassert(all.ResponseMeta != nil && all.ResponseMeta.LogProbs != nil && len(all.ResponseMeta.LogProbs.Content) == total, "log probabilities of all chunks are kept, in order")
+	}
+	for i, m := range msgs {
+		n := 0
+		if m.ResponseMeta != nil {
+			n = len(m.ResponseMeta.LogProbs.Content)
+		}
+		vassert(n == lens[i], "concatenation does not modify its input chunks")
+	}
+}
+
 // H4: extra maps: strings, ints, nil, nested maps, same or different keys
 func c14ExtraVal(kind int) any {
 	switch kind {
@@ -275,4 +323,6 @@ func VerifC14Items() {
 	vassert(r[0].Content == a+b && r[1].Content == c, "message list positions keep their own chunks")
 	_, err = concatMessageArray([][]*Message{l1, {l2[0]}})
 	vassert(err != nil, "lists of different length are rejected with an error")
+	_, err = concatMessageArray([][]*Message{{l2[0]}, l1})
+	vassert(err != nil, "lists of different length are rejected with an error whatever the arrival order")
 }
